@@ -1,3 +1,191 @@
-import FitModel.FileDef
+import FitProps.FileDefLemmas
+/-! # C14 — File types conserve messages; the concurrent listener equals sequential building
+
+First half: the 17 common file types (`Fit.FileDef`, tables regenerated from /repo on every run).
+`T ∈ fileTypes` ranges over the regenerated tables, so every theorem below is re-checked by the kernel against what
+the probe of the current code found (`C14_tables_ok` is the obligation on the tables themselves). -/
 namespace Fit.C14
+open Fit.FileDef Fit.FileDef.Generated
+
+/-- Obligation on the regenerated tables (all 17 file types): slot numbers are distinct, no message number is
+dropped, the first three slots are file_id (value), developer_data_id, field_description (lists), and the sort
+never starts inside this prefix. A file type that drops a message kind or moves the prefix breaks this. -/
+theorem C14_tables_ok : ∀ T ∈ fileTypes, TableOK T := by decide
+
+def hasFileId (msgs : List Msg) : Bool := msgs.any (fun m => m.num == mesgNumFileId)
+
+/-- **What a file keeps.** For every file type and every message list, the stored messages are exactly the input
+(each message normalised by its typed struct), minus the earlier occurrences of single-valued kinds
+(file_id, activity, user_profile, …: the last one added wins) — nothing else lost, nothing duplicated, arrival
+order kept within every kind. -/
+theorem C14_build_keeps_last {T : FileType} (hT : T ∈ fileTypes) (msgs : List Msg) :
+    build T msgs = keepLast T (msgs.map (normT T)) :=
+  build_eq_keepLast (C14_tables_ok T hT) msgs
+
+/-- **Conservation.** `ToFIT` of the built file is, as a multiset, exactly `keepLast` of the (normalised) input:
+no message lost or duplicated, singletons keep their last occurrence. (Input with a file_id message.) -/
+theorem C14_conservation {T : FileType} (hT : T ∈ fileTypes) (msgs : List Msg) (hfid : hasFileId msgs = true) :
+    (toFIT T (build T msgs)).Perm (keepLast T (msgs.map (normT T))) := by
+  have hok := C14_tables_ok T hT
+  have h1 := (toFIT_perm_emission T (build T msgs)).trans (emission_perm hok (build T msgs))
+  rw [build_eq_keepLast hok] at h1 ⊢
+  have hany : (keepLast T (msgs.map (normT T))).any (fun m => m.num == mesgNumFileId) = true := by
+    rw [keepLast_any, List.any_map]
+    simpa [hasFileId, Function.comp_def, normT_num] using hfid
+  simpa [hany] using h1
+
+/-- The code's behaviour on an input without file_id (stated exactly): the file struct holds `FileId` by value, so
+`ToFIT` emits one zero-valued file_id that was never added; everything else is conserved as above. -/
+theorem C14_conservation_no_file_id {T : FileType} (hT : T ∈ fileTypes) (msgs : List Msg) (hfid : hasFileId msgs = false) :
+    (toFIT T (build T msgs)).Perm (defaultMsg T mesgNumFileId :: keepLast T (msgs.map (normT T))) := by
+  have hok := C14_tables_ok T hT
+  have h1 := (toFIT_perm_emission T (build T msgs)).trans (emission_perm hok (build T msgs))
+  rw [build_eq_keepLast hok] at h1 ⊢
+  have hany : (keepLast T (msgs.map (normT T))).any (fun m => m.num == mesgNumFileId) = false := by
+    rw [keepLast_any, List.any_map]
+    simpa [hasFileId, Function.comp_def, normT_num] using hfid
+  simpa [hany] using h1
+
+/-- shape of the output: exactly one file_id, the developer_data_id messages, the field_description messages, the rest -/
+def OutputShape (T : FileType) (msgs : List Msg) (fid : Msg) (rest : List Msg) : Prop :=
+  toFIT T (build T msgs) =
+    fid :: ((build T msgs).filter (fun m => m.num == mesgNumDeveloperDataId) ++
+      ((build T msgs).filter (fun m => m.num == mesgNumFieldDescription) ++ rest))
+
+/-- the part of the emission that follows the prefix (typed slots in table order, each in arrival order, then the
+unrelated messages in arrival order) -/
+def restEmission (T : FileType) (msgs : List Msg) : List Msg := (restGroups T (build T msgs)).flatten
+
+theorem output_shape {T : FileType} (hT : T ∈ fileTypes) (msgs : List Msg) :
+    ∃ fid, fid.num = mesgNumFileId ∧ OutputShape T msgs fid
+      (((restGroups T (build T msgs)).take (T.sortFrom - 3)).flatten ++
+        sortStable ((restGroups T (build T msgs)).drop (T.sortFrom - 3)).flatten) := by
+  have hok := C14_tables_ok T hT
+  obtain ⟨s0, s1, s2, rest, hsl, hsplit⟩ := toFIT_split hok (build T msgs)
+  obtain ⟨s0', s1', s2', rest', hsl', h0n, h0k, h1n, h1k, h2n, h2k, _⟩ := tableOK_slots hok
+  rw [hsl] at hsl'
+  obtain ⟨rfl, rfl, rfl, rfl⟩ : s0 = s0' ∧ s1 = s1' ∧ s2 = s2' ∧ rest = rest' := by
+    simp only [List.cons.injEq] at hsl'; exact ⟨hsl'.1, hsl'.2.1, hsl'.2.2.1, hsl'.2.2.2⟩
+  have e1 : slotMsgs T (build T msgs) s1 = (build T msgs).filter (fun m => m.num == mesgNumDeveloperDataId) := by
+    rw [slotMsgs_of_not_value _ _ _ (by rw [h1k]; decide), h1n]
+  have e2 : slotMsgs T (build T msgs) s2 = (build T msgs).filter (fun m => m.num == mesgNumFieldDescription) := by
+    rw [slotMsgs_of_not_value _ _ _ (by rw [h2k]; decide), h2n]
+  -- the file_id group has exactly one element
+  have e0 : ∃ fid, fid.num = mesgNumFileId ∧ slotMsgs T (build T msgs) s0 = [fid] := by
+    by_cases hany : (build T msgs).any (fun m => m.num == s0.num) = true
+    · rw [slotMsgs_of_any _ _ _ hany]
+      have hle := keepLast_single_le_one T mesgNumFileId (isSingle_fileId hok) (msgs.map (normT T))
+      rw [← build_eq_keepLast hok, ← h0n] at hle
+      obtain ⟨a, ha, hp⟩ := List.any_eq_true.mp hany
+      have hmem : a ∈ (build T msgs).filter (fun m => m.num == s0.num) := List.mem_filter.mpr ⟨ha, hp⟩
+      match hl : (build T msgs).filter (fun m => m.num == s0.num) with
+      | [] => rw [hl] at hmem; cases hmem
+      | [x] =>
+        refine ⟨x, ?_, hl⟩
+        have : x ∈ (build T msgs).filter (fun m => m.num == s0.num) := by rw [hl]; simp
+        rw [← h0n]; simpa using (List.mem_filter.mp this).2
+      | _ :: _ :: _ => rw [hl] at hle; simp at hle
+    · have hany' : (build T msgs).any (fun m => m.num == s0.num) = false := by simpa using hany
+      obtain ⟨hd, _⟩ := slotMsgs_default T _ s0 h0k hany'
+      exact ⟨defaultMsg T s0.num, h0n, hd⟩
+  obtain ⟨fid, hfn, hf⟩ := e0
+  refine ⟨fid, hfn, ?_⟩
+  unfold OutputShape
+  rw [hsplit, hf, e1, e2]
+  rfl
+
+/-- **Prefix order.** The output starts with exactly one file_id message, then all developer_data_id messages, then
+all field_description messages (each in arrival order); no message of these three kinds occurs later. -/
+theorem C14_prefix_order {T : FileType} (hT : T ∈ fileTypes) (msgs : List Msg) :
+    ∃ fid rest, fid.num = mesgNumFileId ∧ OutputShape T msgs fid rest ∧ ∀ m ∈ rest, isPrefixNum m.num = false := by
+  have hok := C14_tables_ok T hT
+  obtain ⟨fid, hfn, hshape⟩ := output_shape hT msgs
+  refine ⟨fid, _, hfn, hshape, ?_⟩
+  intro m hm
+  apply mem_restGroups hok (build T msgs) m
+  have hperm : (((restGroups T (build T msgs)).take (T.sortFrom - 3)).flatten ++
+      sortStable ((restGroups T (build T msgs)).drop (T.sortFrom - 3)).flatten).Perm (restGroups T (build T msgs)).flatten := by
+    have : (restGroups T (build T msgs)).flatten = ((restGroups T (build T msgs)).take (T.sortFrom - 3)).flatten ++
+        ((restGroups T (build T msgs)).drop (T.sortFrom - 3)).flatten := by
+      rw [← List.flatten_append, List.take_append_drop]
+    rw [this]
+    exact List.Perm.append_left _ (sortStable_perm _)
+  exact hperm.mem_iff.mp hm
+
+/-- The sort itself, for every list: the result is a permutation, sorted by the key (`none` = no timestamp
+field least, then by uint32 value, invalid 0xFFFFFFFF last), and messages with equal keys keep their order. -/
+theorem C14_sort_stable (l : List Msg) :
+    (sortStable l).Perm l ∧ Sorted (sortStable l) ∧ ∀ k, withKey k (sortStable l) = withKey k l :=
+  ⟨sortStable_perm l, sortStable_sorted l, fun k => sortStable_withKey k l⟩
+
+/-- The stable sorted arrangement is unique: whatever algorithm `slices.SortStableFunc` uses, if it returns a sorted
+list with the same per-key subsequences (= stable), it returns `sortStable l`. This is the only thing assumed of
+the standard library here. -/
+theorem C14_sort_unique (l l' : List Msg) (hs : Sorted l') (hst : ∀ k, withKey k l' = withKey k l) :
+    l' = sortStable l := sortStable_unique l l' hs hst
+
+/-- In a sorted list every message before a timestamp-less one is timestamp-less: timestamp-less messages come first. -/
+theorem C14_timestampless_first (a c : List Msg) (b : Msg) (hs : Sorted (a ++ b :: c)) (hb : key b = none) :
+    ∀ x ∈ a, key x = none := by
+  intro x hx
+  have := (List.pairwise_append.mp hs).2.2 x hx b (List.mem_cons_self)
+  unfold le at this
+  rw [hb] at this
+  exact keyLe_none_right this
+
+/-- the full ordering demand of the property: for EVERY file type, everything after the prefix is the stable sort
+of the emission -/
+def C14_sorted_stable_full : Prop :=
+  ∀ T ∈ fileTypes, ∀ msgs : List Msg, ∃ fid, OutputShape T msgs fid (sortStable (restEmission T msgs))
+
+/-- **Ordering (partial: file types that sort from the end of the prefix, `sortFrom = 3`).** On the pinned tree these
+are 9 of the 17 file types (activity, course, weight, totals, blood_pressure, monitoring_a/b, activity_summary,
+monitoring_daily). The other 8 sort only their unrelated messages (device, settings, sport, schedules, goals, segment,
+segment_list) or nothing (workout): there `C14_sorted_stable_full` is false — known finding KF-C14-2,
+`C14_KF2_witness` below; what those types do is `C14_sorted_suffix`. -/
+theorem C14_sorted_stable_partial {T : FileType} (hT : T ∈ fileTypes) (h3 : T.sortFrom = 3) (msgs : List Msg) :
+    ∃ fid, OutputShape T msgs fid (sortStable (restEmission T msgs)) ∧
+      Sorted (sortStable (restEmission T msgs)) ∧
+      (∀ k, withKey k (sortStable (restEmission T msgs)) = withKey k (restEmission T msgs)) := by
+  obtain ⟨fid, _, hshape⟩ := output_shape hT msgs
+  rw [h3] at hshape
+  simp only [Nat.sub_self, List.take_zero, List.flatten_nil, List.nil_append, List.drop_zero] at hshape
+  exact ⟨fid, hshape, sortStable_sorted _, fun k => sortStable_withKey k _⟩
+
+/-- **What every file type does** (any `sortFrom ≥ 3`): the groups before `sortFrom` stay in emission order, the
+groups from `sortFrom` on are stably sorted together. -/
+theorem C14_sorted_suffix {T : FileType} (hT : T ∈ fileTypes) (msgs : List Msg) :
+    ∃ fid, OutputShape T msgs fid
+      (((restGroups T (build T msgs)).take (T.sortFrom - 3)).flatten ++
+        sortStable ((restGroups T (build T msgs)).drop (T.sortFrom - 3)).flatten) := by
+  obtain ⟨fid, _, h⟩ := output_shape hT msgs
+  exact ⟨fid, h⟩
+
+/-- non-vacuity: the activity file type is in the regenerated table and sorts from the end of the prefix -/
+example : ft4 ∈ fileTypes ∧ ft4.sortFrom = 3 := by decide
+
+/-! ### Known finding KF-C14-2: file types that do not sort everything after the prefix
+
+The witness is stated on a *pinned literal copy* of the probed workout table (so this theorem keeps checking when
+/repo is repaired; the regenerated table then simply has `sortFrom = 3` and `C14_sorted_stable_partial` covers it). -/
+
+def pinnedWorkout : FileType := {
+  name := "workout", ftype := 5, sortFrom := 6, defaultDg := 0, d1 := .other, d253 := .absent, d254 := .absent, dropped := [],
+  slots := [⟨0, .value, .opaque, .verbatim, .verbatim⟩, ⟨207, .list, .opaque, .verbatim, .verbatim⟩,
+            ⟨206, .list, .opaque, .verbatim, .verbatim⟩, ⟨26, .single, .opaque, .verbatim, .opaque⟩,
+            ⟨27, .list, .opaque, .verbatim, .opaque⟩] }
+
+/-- file_id, then two (unrelated) record messages with timestamps 2 and 1 -/
+def kf2Msgs : List Msg := [
+  { num := 0, f1 := .absent, f253 := .absent, f254 := .absent, tag := 1, dg := 0, ft := 5 },
+  { num := 20, f1 := .absent, f253 := .u32 2, f254 := .absent, tag := 2, dg := 0, ft := 255 },
+  { num := 20, f1 := .absent, f253 := .u32 1, f254 := .absent, tag := 3, dg := 0, ft := 255 }]
+
+/-- On a file type shaped like today's workout (nothing sorted) the part after file_id is NOT the stable sort of the
+emission: the records come back with timestamps 2, 1. So `C14_sorted_stable_full` fails for such a table. -/
+theorem C14_KF2_witness :
+    (toFIT pinnedWorkout (build pinnedWorkout kf2Msgs)).drop 1 ≠
+      sortStable ((restGroups pinnedWorkout (build pinnedWorkout kf2Msgs)).flatten)
+    ∧ sortedB ((toFIT pinnedWorkout (build pinnedWorkout kf2Msgs)).drop 1) = false := by decide
+
 end Fit.C14
